@@ -12,6 +12,7 @@ def reg(pid, technique, text, note, design_ref, category="exploration"):
 exec(open(os.path.join(HERE, "manifest_table.py")).read())
 
 props = [json.loads(l)["id"] for l in open(os.path.join(HERE, "properties.jsonl"))]
+NOT_APPLICABLE = [{"property_id": p, "reason": NA_REASONS.get(p, "check under construction in this build phase (planned in DESIGN.md); not yet claimed")} for p in props if p not in CHECKS]
 checks = []
 for pid in props:
     if pid not in CHECKS:
